@@ -218,6 +218,9 @@ type HandleInfo struct {
 	File      string
 	OpenTick  int64
 	Closes    int
+	// CloseReturned counts Close calls that have returned (a Close can be slow: the plan may
+	// delay it), so "closed" can be told from "someone has begun closing it".
+	CloseReturned int
 	OpsAfter  int // operations after close
 	Overlaps  int // concurrent uses detected
 	LastTick  int64
@@ -429,11 +432,15 @@ func (r *instrReader) Close() error {
 	r.info.CloseTick = r.s.Log.Clock.Now()
 	r.s.hmu.Unlock()
 	r.closed.Store(true)
+	pre(nil, Action{Delay: act.Delay}) // a slow Close (never gated)
 	err := r.inner.Close()
 	if act.Fail && err == nil {
 		// the handle is closed for real; the store reports a failure all the same
 		err = injErr("RClose", seq, act.Tag)
 	}
+	r.s.hmu.Lock()
+	r.info.CloseReturned++
+	r.s.hmu.Unlock()
 	r.s.Log.end(seq, err, -1)
 	return err
 }
